@@ -145,8 +145,24 @@ def build_input(root, case, ch):
             elif cls == "unknown-key-ifacestruct":
                 pc.setdefault("interfaces", {})[x] = {["no-such-key", "config_", "all", "structname"][v]: {}}
             elif cls == "schema-data":
-                setlevel(pc, x, "template-data", [{"bogus-key": 1}, {"unroll-variadic": "yes"} if ch["template"] == "testify" else {"with-resets": "yes"},
-                                                  {"mock-build-tags": 7}, {"boilerplate-file": ["x"]}][v])
+                # rejected data at the fault's level WHILE the less specific levels (and, v3, the sibling interface) carry
+                # conforming data -- v1..v3 for the very same key, with a value of another JSON type that prints the same
+                bkey, bgood, bbad = ("unroll-variadic", False, "false") if ch["template"] == "testify" else ("skip-ensure", False, "false")
+                key, good, bad = [(bkey, bgood, None), (bkey, bgood, bbad), ("mock-build-tags", "1", 1), (bkey, True, "true")][v]
+                setlevel(pc, x, "template-data", {"bogus-key": 1} if v == 0 else {key: bad})
+                order_ = ["root", "pkg", "iface", "entry"]
+                for lv in order_[:order_.index(level)]:
+                    if lv == "root":
+                        conf["template-data"] = {key: good}
+                    elif lv == "pkg":
+                        pc.setdefault("config", {})["template-data"] = {key: good}
+                    else:
+                        pc["interfaces"][x].setdefault("config", {})["template-data"] = {key: good}
+                if v == 3 and level in ("iface", "entry"):
+                    y = [n for n in IFACES[f] if n != x][0]
+                    if pc["interfaces"].get(y) is None:
+                        pc["interfaces"][y] = {}
+                    pc["interfaces"][y].setdefault("config", {})["template-data"] = {key: good}
             elif cls == "cyclic":
                 if v >= 2:
                     conf["formatter"] = "noop"      # a silently truncated value would then reach the file system
@@ -428,6 +444,49 @@ def decl_text(kind, i):
         txt = f"type {T} = Anchor"
     elif kind == "constraint":
         txt = f"type {T} interface{{ ~int | ~string }}"
+    # ---- aliases / defined types denoting an interface type (go/types: *types.Alias, or *types.Named over an instance)
+    elif kind == "alias-iface-lit":
+        txt = f"type {T} = interface{{ M{i}() }}"
+    elif kind == "alias-embed-lit":
+        txt = f"type {T} = interface {{\n\tio.Reader\n\tAnchor\n}}"
+        imports.add("io")
+    elif kind == "alias-inst":
+        txt = f"type {T} = GenBase[int]"
+    elif kind == "alias-inst2":
+        txt = f"type {T} = GenPair[string, []int]"
+    elif kind == "alias-of-alias":
+        txt = f"type {T} = U{i}\n\ntype U{i} = Anchor"
+    elif kind == "alias-foreign-iface":
+        txt = f"type {T} = io.Reader"
+        imports.add("io")
+    elif kind == "alias-any":
+        txt = f"type {T} = any"
+    elif kind == "alias-error":
+        txt = f"type {T} = error"
+    elif kind == "defined-over-foreign-iface":
+        txt = f"type {T} io.Reader"
+        imports.add("io")
+    elif kind == "defined-over-local-iface":
+        txt = f"type {T} Anchor"
+    # ---- aliases / defined types that do not denote an interface type
+    elif kind == "alias-struct-lit":
+        txt = f"type {T} = struct{{ X int }}"
+    elif kind == "alias-func":
+        txt = f"type {T} = func(int) error"
+    elif kind == "alias-pointer":
+        txt = f"type {T} = *GenStruct[int]"
+    elif kind == "alias-map":
+        txt = f"type {T} = map[string]interface{{ M() }}"
+    elif kind == "alias-chan-of-iface":
+        txt = f"type {T} = chan Anchor"
+    elif kind == "alias-slice-inst":
+        txt = f"type {T} = []GenBase[int]"
+    elif kind == "alias-basic":
+        txt = f"type {T} = int"
+    elif kind == "alias-struct-inst":
+        txt = f"type {T} = GenStruct[int]"
+    elif kind == "defined-over-struct-inst":
+        txt = f"type {T} GenStruct[int]"
     else:
         raise MachineryError("PipelineValid.tla has a declaration kind the harness cannot concretise: " + kind)
     return txt, extra, imports, mock
@@ -443,11 +502,13 @@ GOMOD = {
 def build_valid(case):
     w = case["world"]
     files = {"ps/support.go": "package ps\n\n// Anchor is always there, so every world has something to write.\ntype Anchor interface{ Ping() }\n\n"
-                              "type GenBase[T any] interface{ Get() T }\n"}
+                              "type GenBase[T any] interface{ Get() T }\n\ntype GenPair[K comparable, V any] interface{ Get(K) V }\n\n"
+                              "type GenStruct[T any] struct{ V T }\n"}
     conf = {"dir": "mocks/{{.SrcPackageName}}", "filename": "mocks.go", "pkgname": "mocks", "build-tags": "vtag",
             "packages": {f"{MOD}/ps": {"config": {"all": True}}}}
     gomod = None
     expected = [("mocks/ps/mocks.go", "MockAnchor")]
+    named = ["Anchor"]
     if w["kind"] == "decls" or w["kind"] == "gomod":
         body, imports = [], set()
         for i, k in enumerate(w["decls"], start=1):
@@ -461,8 +522,11 @@ def build_valid(case):
                     raise MachineryError(f"contract says {k} must be mocked but the harness has no mock name for it")
                 name = ("Mock" if mock[0].isupper() else "mock") + mock
                 expected.append(("mocks/ps/mocks.go", name))
+                named.append(mock)
         imp = "".join(f'import "{x}"\n' for x in sorted(imports))
         files["ps/decls.go"] = "package ps\n\n" + imp + "\n" + "\n\n".join(body) + "\n"
+        if w.get("select", "all") != "all":       # by name (the must-declarations) / only the anchor: the rest is parsed, not selected
+            conf["packages"][f"{MOD}/ps"] = {"interfaces": {n: {} for n in named}}
     if w["kind"] == "gomod":
         gomod = GO_SUM_MOD.replace("module example.com/w\n", GOMOD[w["spelling"]])
         if w["spelling"] == "crlf":
@@ -499,11 +563,12 @@ def replay_valid(ctx, item, runs, runlock):
         raise MachineryError(f"mockery timed out on valid world {item['id']}")
     kinds = list(w["decls"])
     sig0 = {"world": w["kind"], "shape": w["shape"], "spelling": w["spelling"] if w["kind"] == "gomod" else "-",
-            "layout": w["layout"], "has_local": bool(case.get("has_local"))}
+            "layout": w["layout"], "has_local": bool(case.get("has_local")), "has_alias": bool(case.get("has_alias")),
+            "select": w.get("select", "all")}
     detail = {"case": case, "config": conf, "run": r.brief(), "decls_go": files.get("ps/decls.go")}
     out = []
     if r.panicked:
-        out.append((dict(sig0, kind="panic", decl=next((k for k in kinds if k.startswith("local") or "shadow" in k), kinds[0] if kinds else "-")), detail))
+        out.append((dict(sig0, kind="panic", decl=next((k for k in kinds if k.startswith(("local", "alias", "defined")) or "shadow" in k), kinds[0] if kinds else "-")), detail))
     if r.code != 0 and exp["exit"] == "zero":
         # which declaration kind is it?  (single-kind worlds identify it; otherwise report the list)
         out.append((dict(sig0, kind="valid-input-rejected", decl=kinds[0] if len(set(kinds)) == 1 else "+".join(sorted(set(kinds)))), detail))
@@ -517,7 +582,7 @@ def replay_valid(ctx, item, runs, runlock):
                 break
     if not out and not os.environ.get("VERIF_KEEP"):
         shutil.rmtree(d, ignore_errors=True)
-    return out, {"id": item["id"], "world": {k: w[k] for k in ("kind", "decls", "spelling", "layout", "shape", "ctx")},
+    return out, {"id": item["id"], "world": {k: w[k] for k in ("kind", "decls", "select", "spelling", "layout", "shape", "ctx")},
                  "exit": r.code, "mocks_expected": [s for _, s in expected]}
 
 
@@ -583,7 +648,7 @@ def run(ctx):
     if not any(b["deviated"] for b in behs) or not any(b["exit"] == 1 and b["written"] for b in behs):
         raise MachineryError("vacuous: no behaviour with the D16 deviation / no failing behaviour that wrote a file first")
     vk = {k for c in vcases for k in c["world"]["decls"]}
-    if len(vk) < 30 or not any(c["world"]["kind"] == "gomod" for c in vcases) or not any(c["world"]["kind"] == "pkgshape" for c in vcases):
+    if len(vk) < 50 or not any(c.get("has_alias") and c["world"]["select"] == "none" for c in vcases) or not any(c["world"]["kind"] == "gomod" for c in vcases) or not any(c["world"]["kind"] == "pkgshape" for c in vcases):
         raise MachineryError("vacuous: PipelineValid exported too few kinds of valid worlds")
 
     # ---- replay
